@@ -86,6 +86,8 @@ def run(chk):
     from lib import tempsetting
     tempsetting.run(chk)
 
+    from lib import danglink
+    danglink.run(chk)
     return chk.finish(
         level="other",
         explanation=("Reset-closure coverage over /repo's current source: for each class that owns arena-backed containers or "
